@@ -51,6 +51,7 @@ def gen_program(rnd, pid, cls='A', nrt_only=False, feats=('send', 'tempo', 'spaw
 
     order = list(roots)
     tempo_owner = {}
+    cond_home = {}
     while order:
         r = order.pop(0)
         c = home[r]
@@ -79,7 +80,9 @@ def gen_program(rnd, pid, cls='A', nrt_only=False, feats=('send', 'tempo', 'spaw
                     body.append(I('T', c=c, **dict(zip('ab', rnd.choice(TEMPI)))))
             elif x < 0.84 and 'pause' in feats:
                 # pause / resume a routine living on the same clock that has been played already
-                cands = [o for o in names if o != r and home.get(o) == c and o not in unplayed]
+                # only routines started by the main thread: they are certainly playing (on this clock) by then;
+                # pausing a routine that has not been played yet would resume it on SystemClock (its default)
+                cands = [o for o in roots if o != r and home.get(o) == c]
                 if cands:
                     o = rnd.choice(cands)
                     body.append(I('X', s=o))
@@ -93,7 +96,14 @@ def gen_program(rnd, pid, cls='A', nrt_only=False, feats=('send', 'tempo', 'spaw
                     body.append(I('K', a=sd, s=str(sd)))
                     seeded = True
                 body.append(I('D'))
-            elif x < 0.93 and 'raise' in feats:
+            elif x < 0.96 and 'cond' in feats:
+                cn = rnd.choice(['c1', 'c2'])
+                if cls == 'B':
+                    # race-free: a condition is used inside one clock only
+                    if cond_home.setdefault(cn, c) != c:
+                        continue
+                body.append(I('W', s=cn) if rnd.random() < 0.5 else I('G', s=cn, a=rnd.choice([1, 1, 0])))
+            elif x < 0.98 and 'raise' in feats:
                 body.append(I('E'))
                 break
     for k in unplayed:          # never played: drop
@@ -217,6 +227,6 @@ def nontrivial(prog):
     """program with a tempo change, a cross-clock spawn or a nested/None-latency send"""
     for body in prog['routines'].values():
         for i in body:
-            if i['op'] in ('T', 'X', 'K', 'KC') or (i['op'] == 'P' and i['c']) or (i['op'] == 'S' and (i['nk'] or i['b'])):
+            if i['op'] in ('T', 'X', 'K', 'KC', 'W') or (i['op'] == 'P' and i['c']) or (i['op'] == 'S' and (i['nk'] or i['b'])):
                 return True
     return False
